@@ -35,12 +35,14 @@ package nsqd
 // The auth server is asked again exactly when the cached answer has expired; its error propagates.
 // QueryAuthd replaces the cached answer only on success (assumed: it is an HTTP round trip).
 //@ ghost authQueries int
+//@ ghost lastAuthQueryOK bool
 //@ func (c *clientV2) QueryAuthd() error
 //@   trusted
 //@   ensures result != nil ==> c.AuthState == old(c.AuthState)
 //@   ensures result == nil ==> c.AuthState != nil
-//@   modifies c.AuthState, authQueries
+//@   modifies c.AuthState, authQueries, lastAuthQueryOK
 //@   onreturn authQueries := authQueries + 1
+//@   onreturn lastAuthQueryOK := result == nil
 
 //@ func (c *clientV2) IsAuthorized(topic, channel string) (bool, error)
 //@   props C11
@@ -50,7 +52,8 @@ package nsqd
 //@   ensures[denied] result1 == nil && !result0 && c.AuthState != nil ==> !auth.stateAllows(c.AuthState, topic, channel)
 //@   ensures[refetch-iff-expired] old(c.AuthState) != nil ==> (authQueries == old(authQueries) + 1 <==> unixNano(old(c.AuthState.Expires)) < unixNano(lastNow)) && (authQueries == old(authQueries) || authQueries == old(authQueries) + 1)
 //@   ensures[auth-error] result1 != nil ==> !result0
-//@   modifies c.AuthState, authQueries, lastNow
+//@   ensures[never-on-a-stale-answer] result0 && old(c.AuthState) != nil && unixNano(old(c.AuthState.Expires)) < unixNano(lastNow) ==> lastAuthQueryOK && authQueries == old(authQueries) + 1
+//@   modifies c.AuthState, authQueries, lastNow, lastAuthQueryOK
 
 // CheckAuth: nil only if auth is off, or the client has authorizations and the current answer
 // grants this topic/channel; otherwise one of the documented fatal errors.
@@ -60,5 +63,5 @@ package nsqd
 //@   ensures[granted] result == nil ==> len(curOpts(client.nsqd).AuthHTTPAddresses) == 0 || (client.AuthState != nil && auth.stateAllows(client.AuthState, topicName, channelName))
 //@   ensures[auth-first] len(curOpts(client.nsqd).AuthHTTPAddresses) != 0 && (old(client.AuthState) == nil || len(old(client.AuthState.Authorizations)) == 0) ==> isFatalCode(result, "E_AUTH_FIRST")
 //@   ensures[codes] result != nil ==> isFatalCode(result, "E_AUTH_FIRST") || isFatalCode(result, "E_AUTH_FAILED") || isFatalCode(result, "E_UNAUTHORIZED")
-//@   modifies client.AuthState, authQueries, lastNow
+//@   modifies client.AuthState, authQueries, lastNow, lastAuthQueryOK
 //@ pred isFatalCode(err error, code string) := dyntype(err) == typetag("*protocol.FatalClientErr") && unbox(err, "*protocol.FatalClientErr").Code == code
